@@ -3,6 +3,7 @@ package c17
 import (
 	"bytes"
 	"fmt"
+	"runtime"
 	"sync"
 	"testing"
 	"time"
@@ -41,7 +42,7 @@ func genPlan(t *rapid.T, nStreams, n int, maxBits int) []*planned {
 	for i := range out {
 		s := rapid.IntRange(0, nStreams-1).Draw(t, "stream")
 		h := kit.GenHeader(t, "h", kit.HeaderShape{})
-		h.SSRC = uint32(50 + s) //nolint:gosec
+		h.SSRC = uint32(50 + s)      //nolint:gosec
 		h.SequenceNumber = uint16(i) //nolint:gosec
 		p := &planned{stream: s, hdr: h, payload: kit.Payload(t, "p", 1460)}
 		if p.bits() >= maxBits && excludedOversize != nil {
@@ -133,7 +134,7 @@ func TestPacingInterceptor(t *testing.T) {
 		// further changes back and forth between the two rates while a backlog waits (each SetRate call is a rate change event)
 		flips := 0
 		if rate2 > 0 {
-			flips = rapid.IntRange(0, 6).Draw(t, "rateFlips")
+			flips = rapid.OneOf(rapid.Just(0), rapid.IntRange(0, 6)).Draw(t, "rateFlips")
 		}
 		nStreams := rapid.IntRange(1, 3).Draw(t, "streams")
 		nWriters := rapid.IntRange(1, 4).Draw(t, "writers")
@@ -173,7 +174,7 @@ func TestPacingInterceptor(t *testing.T) {
 		sinks := make([]*kit.RTPSink, nStreams)
 		writers := make([]interceptor.RTPWriter, nStreams)
 		for i := range sinks {
-			sinks[i] = &kit.RTPSink{}
+			sinks[i] = genTransport(t, total)
 			writers[i] = ic.BindLocalStream(&interceptor.StreamInfo{SSRC: uint32(50 + i)}, sinks[i]) //nolint:gosec
 		}
 		var wg sync.WaitGroup
@@ -229,6 +230,10 @@ func TestPacingInterceptor(t *testing.T) {
 			_ = ic.Close()
 			t.Fatalf("%v (rate %d, interval %v, setRate %d)", err, rate, interval, rate2)
 		}
+		if err := checkUntampered(sinks); err != nil {
+			_ = ic.Close()
+			t.Fatalf("%v (rate %d, interval %v)", err, rate, interval)
+		}
 		// token bucket: at every delivery instant, released bits <= largest burst so far + integral of the rate (+1 packet of slack for timer skew)
 		var all []kit.SentRTP
 		for _, s := range sinks {
@@ -268,14 +273,98 @@ func TestPacingInterceptor(t *testing.T) {
 			_ = ic.Close()
 			t.Skipf("inconclusive: %d of %d packets delivered within %v", totalDelivered(sinks), total, wait)
 		}
+		// after the rate was lowered the bucket is the new rate's bucket: stay idle long enough for a stale larger one to fill up,
+		// then write a batch back to back; from the first write of the batch on, released bits <= burst(rate2) + rate2 x elapsed
+		idleBatch := false
+		rate2orig := rate2
+		finalRate := rate2 // the rate in force now: SetRate(rate2), then flips alternate rate, rate2, ...
+		if flips%2 == 1 {
+			finalRate = rate
+		}
+		if b1, b2 := max(burstOf(rate, interval), burstOf(max(rate2, 1), interval)), burstOf(max(finalRate, 1), interval); drained && rate2 > 0 && b1 > 2*b2+3*9696 {
+			rate2 := finalRate
+			want := min(b1, 2*b2+12*9696)
+			idle := time.Duration(float64(want)/float64(rate2)*float64(time.Second)) + 5*interval
+			if idle <= 500*time.Millisecond {
+				idleBatch = true
+				time.Sleep(idle)
+				n := want/9696 + 2
+				before := sinks[0].Len()
+				start := time.Now()
+				for i := 0; i < n; i++ {
+					hdr := rtp.Header{Version: 2, SSRC: 50, SequenceNumber: uint16(i), Timestamp: 0xFFFFFFFF} //nolint:gosec
+					if _, err := writers[0].Write(&hdr, make([]byte, 1200), nil); err != nil {
+						_ = ic.Close()
+						t.Fatalf("Write after the idle period: %v", err)
+					}
+				}
+				wait := time.Duration(float64(n*9696)/float64(rate2)*3*float64(time.Second)) + 200*interval + time.Second
+				if kit.Eventually(wait, func() bool { return sinks[0].Len() >= before+n }) {
+					released := 0
+					for _, c := range sinks[0].Calls()[before:] {
+						released += 8 * (c.Header.MarshalSize() + len(c.Payload))
+						el := c.At.Sub(start).Seconds()
+						// one tick stamped before the batch can still be waiting in the ticker channel when the loop has been descheduled: it spends up to one
+						// bucket, and the bucket can be full again at the first tick stamped after the start
+						if allowed := 2*float64(b2) + float64(rate2)*el + 9696; float64(released) > allowed {
+							_ = ic.Close()
+							t.Fatalf("token bucket exceeded after the rate was lowered to %d (rates used before: %d, %d) and the pacer had been idle for %v: %d bits released %.6f s after the first write of a batch, "+
+								"2 x burst %d + rate x elapsed (+1 packet) = %.0f (interval %v)", rate2, rate, rate2orig, idle, released, el, b2, allowed, interval)
+						}
+					}
+				}
+			}
+		}
 		if o := kit.Guard(0, func() { _ = ic.Close() }); !o.OK() {
 			t.Fatalf("Close: %s", o)
 		}
+		_ = idleBatch
 		h := kit.NewH().I(rate, int(interval), rate2, nStreams, nWriters, total, sumBits)
 		rec.Case(h.Sum(), (nStreams >= 2 || nWriters >= 2) && queuedAtOnce >= 20, []string{fmt.Sprintf("rate=%d", rate), fmt.Sprintf("writers=%d", nWriters)}, func() any {
 			return map[string]any{"rate": rate, "interval_ms": interval.Milliseconds(), "set_rate": rate2, "streams": nStreams, "writers": nWriters, "packets": total, "queued_when_writers_finished": queuedAtOnce}
 		})
 	})
+}
+
+// genTransport draws the behaviour of a stream's next writer: plain, failing at a few calls (the packet still counts as handed over:
+// exactly once), or slow (yields / sleeps inside Write and then compares what it was given with the copy taken on entry).
+func genTransport(t *rapid.T, total int) *kit.RTPSink {
+	return genTransportLater(t)(total)
+}
+
+func genTransportLater(t *rapid.T) func(total int) *kit.RTPSink {
+	kind := rapid.IntRange(0, 5).Draw(t, "transport")
+	fails := rapid.SliceOfN(rapid.IntRange(0, 400), 1, 4).Draw(t, "failAt")
+	yields := rapid.IntRange(1, 30).Draw(t, "holdYields")
+
+	return func(total int) *kit.RTPSink {
+		s := &kit.RTPSink{}
+		switch kind {
+		case 0:
+			s.FailAt = map[int]error{}
+			for _, f := range fails {
+				s.FailAt[f%max(total, 1)] = errTransport
+			}
+		case 1:
+			s.HoldYields = yields
+		case 2:
+			s.HoldSleep = 30 * time.Microsecond
+		}
+
+		return s
+	}
+}
+
+var errTransport = fmt.Errorf("injected transport error")
+
+func checkUntampered(sinks []*kit.RTPSink) error {
+	for i, s := range sinks {
+		if tm := s.Tampered(); len(tm) > 0 {
+			return fmt.Errorf("stream %d: %s (%d such writes)", i, tm[0], len(tm))
+		}
+	}
+
+	return nil
 }
 
 // scribble overwrites everything the caller handed in, in place.
@@ -316,6 +405,7 @@ func TestGCCPacers(t *testing.T) {
 			"every accepted packet delivered once, in order per writer and stream, intact; non-trivial = >= 2 streams or writers and >= 20 packets; distinct by configuration and plan")
 	rapid.Check(t, func(t *rapid.T) {
 		leaky := rapid.Bool().Draw(t, "leakyBucket")
+		trickle := rapid.SampledFrom([]int{0, 1, 5, 20}).Draw(t, "trickleYields")
 		rate := rapid.SampledFrom([]int{2_000_000, 20_000_000, 200_000_000}).Draw(t, "rate")
 		nStreams := rapid.IntRange(1, 3).Draw(t, "streams")
 		nWriters := rapid.IntRange(1, 4).Draw(t, "writers")
@@ -326,9 +416,9 @@ func TestGCCPacers(t *testing.T) {
 			p = gcc.NewNoOpPacer()
 		}
 		sinks := make([]*kit.RTPSink, nStreams)
-		for i := range sinks {
-			sinks[i] = &kit.RTPSink{}
-			p.AddStream(uint32(50+i), sinks[i]) //nolint:gosec
+		sinkGens := make([]func(int) *kit.RTPSink, nStreams)
+		for i := range sinkGens {
+			sinkGens[i] = genTransportLater(t)
 		}
 		plans := make([][]*planned, nWriters)
 		acceptedOK := make([][]bool, nWriters)
@@ -348,6 +438,13 @@ func TestGCCPacers(t *testing.T) {
 			acceptedOK[w] = make([]bool, len(plans[w]))
 			total += len(plans[w])
 		}
+		for i := range sinks {
+			sinks[i] = sinkGens[i](total)
+			if !leaky {
+				sinks[i].FailAt = nil // the pass-through pacer returns the transport's error from Write: that is not a refusal by the pacer
+			}
+			p.AddStream(uint32(50+i), sinks[i]) //nolint:gosec
+		}
 		var wg sync.WaitGroup
 		for w := range plans {
 			wg.Add(1)
@@ -362,6 +459,14 @@ func TestGCCPacers(t *testing.T) {
 					_, err := p.Write(&hdr, pay, nil)
 					scribble(&hdr, pay)
 					acceptedOK[w][k] = err == nil
+					if trickle > 0 { // keep writing while the pacer delivers: pooled buffers are taken while others are still with the transport
+						for y := 0; y < trickle; y++ {
+							runtime.Gosched()
+						}
+						if k%4 == 3 {
+							time.Sleep(50 * time.Microsecond)
+						}
+					}
 				}
 			}(w)
 		}
@@ -380,6 +485,10 @@ func TestGCCPacers(t *testing.T) {
 		wait := time.Duration(float64(sumBits)/float64(rate)*3*float64(time.Second)) + 2*time.Second
 		drained := kit.Eventually(wait, func() bool { return totalDelivered(sinks) >= total })
 		if err := checkDelivery(sinks, plans, acceptedOK, drained); err != nil {
+			_ = p.Close()
+			t.Fatalf("%v (leaky bucket %v, rate %d)", err, leaky, rate)
+		}
+		if err := checkUntampered(sinks); err != nil {
 			_ = p.Close()
 			t.Fatalf("%v (leaky bucket %v, rate %d)", err, leaky, rate)
 		}
